@@ -42,7 +42,14 @@ RULE = (
     "slice of a larger tensor (storage offset, gaps) and as float64 (thorough: all three per case; quick: one per "
     "case, rotating) and must equal the contiguous float32 result (bit-identical; 1e-4 for float64 under a warp); "
     "__call__/spec_augment are fed contiguous / transposed / offset inputs in rotation; after every call the "
-    "caller's tensor (and the surrounding storage of the slice) must be unchanged. HISTORY pass: ONE module object "
+    "caller's tensor (and the surrounding storage of the slice) must be unchanged. KNOT pass (structural enumeration of 'distance of the warp "
+    "destination to a pinned knot' x 'padded length over sequence length'): padded T in {13,40,100,400} (thorough "
+    "+2048) with lengths {2,5,13} / {3,8,28} in one batch, max_time_warp {1,100} x order 1 and 100 x order 2 "
+    "(thorough {1,3,100} x 1, {1,100} x 2, 100 x 3), centre answer in {0,1/2,1-2^-24}, and the shift answer solved "
+    "per element so that w_0+w lands {0,1e-3,1e-2,0.1,0.3} frames from the lower / upper pinned knot (neutral 1/2 "
+    "where that destination is outside the element's window); plus a sweep of every padded length T=1..64 "
+    "(thorough 256) around lengths 1,2,3 with answers (0,0),(1/2,1/2),(1-,1-); all through the scripted draw, "
+    "bounds, apply, position and range checks above. HISTORY pass: ONE module object "
     "driven through every history of length 1..3 over 11 steps (6 calls with T in {3,5,8}, N in {2,3}, lengths given "
     "or omitted; eval()/train(); reassigning max_time_mask, max_time_warp, num_freq_mask) that ends in a call, 2 limit "
     "sets x 2 (thorough 4) fixed answer sets x F: the last call must be bit-identical to a FRESH module with the "
@@ -71,6 +78,8 @@ ASSUMPTIONS = [
     "dtype's epsilon, so a float64 __call__ is a different draw); expanded (stride-0) inputs are not fed",
     "histories: length <= 3 on one object, fixed (not enumerated) answers per call; only the last call of a history is "
     "compared (shorter histories are enumerated themselves); attributes are reassigned as plain Python attributes",
+    "time-warp violations are classified (never excused) by knot_gap / pad_ratio / spline_ill_conditioned = "
+    "2*gap/T < 2e-3, computed from the drawn (centre, shift), the length and the padded length only",
     "TorchScript-compiled and CUDA variants not explored",
 ]
 BUDGET_S = {"quick": 230, "thorough": 2400}
@@ -155,6 +164,8 @@ def _leaves(unit, tier):
         return len(JOINT_PAIRS[tier]) ** 4
     if p == "hist":
         return 1000
+    if p == "knot":
+        return (30 if unit["mode"] == "dist" else 3) * (1 + unit["T"] // 100)
     if p == "grid":
         L = unit["T"]
         s = (L + 1) * (L + 2) // 2
@@ -211,6 +222,17 @@ def all_units(tier):
                     units.append({"pass": "grid", "axis": "t", "M": M, "T": T, "F": F, "lens": lens, "cfg": dict(OFF)})
                 units.append({"pass": "grid", "axis": "f", "M": 2, "T": T, "F": F, "lens": lens, "cfg": dict(OFF)})
             units.append({"pass": "eval", "T": T, "F": F, "lens": None, "cfg": dict(JOINT_CFGS[1])})
+    # destination of the time warp at fixed distances from the pinned knots, short sequences in long batches
+    for T in ((13, 40, 100, 400, 2048) if thorough else (13, 40, 100, 400)):
+        for lens in ([2, 5, 13], [3, 8, 28]):
+            lens = [L for L in lens if L <= T]
+            for mtw, order in (((1, 1), (3, 1), (100, 1), (1, 2), (100, 2), (100, 3)) if thorough
+                               else ((1, 1), (100, 1), (100, 2))):
+                units.append({"pass": "knot", "mode": "dist", "T": T, "F": 1 if order == 1 else 2, "lens": lens,
+                              "cfg": dict(OFF, max_time_warp=mtw, interpolation_order=order)})
+    for T in range(1, 257 if thorough else 65):  # every padded length around very short sequences
+        units.append({"pass": "knot", "mode": "sweep", "T": T, "F": 1, "lens": [L for L in (1, 2, 3) if L <= T],
+                      "cfg": dict(OFF, max_time_warp=100, interpolation_order=1)})
     # histories on one module object
     for ci, cfg in enumerate(HIST_CFGS):
         for fi, F in enumerate(FS):
@@ -226,7 +248,7 @@ def all_units(tier):
 def shards(tier, seed):
     units = all_units(tier)
     K = 48 if tier == "quick" else 128
-    cost = [(_leaves(u, tier) * (3 if u["pass"] in ("tw", "fw", "joint") else 1) + 5, i) for i, u in enumerate(units)]
+    cost = [(_leaves(u, tier) * (3 if u["pass"] in ("tw", "fw", "joint", "knot") else 1) + 5, i) for i, u in enumerate(units)]
     cost.sort(reverse=True)
     load = [0] * K
     bins = [[] for _ in range(K)]
@@ -479,6 +501,13 @@ def _check_draw(ctx, env, params, case):
     return ok, {"nontrivial": nontrivial}
 
 
+def _knot_sig(centre, shift, L, T):
+    """Classifies a time-warp violation by how close the destination is to a pinned knot and how much
+    longer the padded axis is than the sequence."""
+    return {"knot_gap": O.knot_gap_class(O.knot_gap(centre, shift, L)), "pad_ratio": O.pad_ratio_class(T, L),
+            "spline_ill_conditioned": O.spline_ill_conditioned(centre, shift, L, T)}
+
+
 def _mask_sets(env, params):
     rows = [set() for _ in range(env.N)]
     cols = [set() for _ in range(env.N)]
@@ -505,8 +534,13 @@ def _check_apply(ctx, env, params, case, out=None):
             else:
                 out = PF.spec_augment_apply_parameters(env.feats, params, order, env.lengths)
         except Exception as e:
-            ctx.violation({"api": API_A, "symptom": "raises", "type": type(e).__name__, "warped": warped}, case,
-                          {"error": str(e)[-400:], "params": _plist(params), "lens": env.lens_eff})
+            sig = {"api": API_A, "symptom": "raises", "type": type(e).__name__, "warped": warped}
+            if warped_t:
+                a, b = params[0].tolist(), params[1].tolist()
+                sig["spline_ill_conditioned"] = any(
+                    O.spline_ill_conditioned(a[n], b[n], env.lens_eff[n], env.T) for n in range(env.N))
+            ctx.violation(sig, case, {"error": str(e)[-400:], "params": _plist(params), "lens": env.lens_eff,
+                                      "T": env.T})
             return None
         _check_input_kept(ctx, env, case, API_A)
     if not isinstance(out, torch.Tensor) or tuple(out.shape) != tuple(env.feats.shape) or out.dtype != env.feats.dtype:
@@ -533,6 +567,8 @@ def _check_apply(ctx, env, params, case, out=None):
                 if pr[0] == "non-finite-value" and warped_f:
                     on_end = on_end or O.dst_on_pinned_end(v0[n], v[n], env.F)
                 sig.update(linear=order == 1, order=order, dst_on_pinned_end=on_end)
+                if warped_t:
+                    sig.update(_knot_sig(w0[n], w[n], L, env.T))
             ctx.violation(sig, dict(case, n=n),
                           {"cell": list(pr[1:]), "input": env.inp[n], "output": o[n], "length": L,
                            "masked_frames": sorted(rows[n]), "masked_coefficients": sorted(cols[n]),
@@ -560,8 +596,9 @@ def _check_apply(ctx, env, params, case, out=None):
             if order == 1:
                 for pr in O.check_linear_positions(pl[n], L):
                     src, dst = O.destination(w0[n], w[n], L)
-                    ctx.violation({"api": API_A, "group": "time_warp", "symptom": pr, "order": order, "linear": True,
-                                   "dst_on_pinned_end": on_end}, dict(case, n=n),
+                    ctx.violation(dict({"api": API_A, "group": "time_warp", "symptom": pr, "order": order,
+                                        "linear": True, "dst_on_pinned_end": on_end},
+                                       **_knot_sig(w0[n], w[n], L, env.T)), dict(case, n=n),
                                   {"positions_read_for_valid_frames": pl[n][:L], "length": L, "T": env.T,
                                    "w_0": w0[n], "w": w[n], "clamped_source": src, "clamped_destination": dst})
                 _outcome(ctx, 8, 1, L, [round(x * 4) for x in pl[n][:L]])
@@ -577,7 +614,7 @@ def _state(ctx, env, params):
     ctx.state(int.from_bytes(h.digest(), "big"))
 
 
-PASS_ID = {"hist": 9, "tw": 1, "fw": 2, "tm": 3, "fm": 4, "joint": 5, "grid": 6, "eval": 7}
+PASS_ID = {"knot": 10, "hist": 9, "tw": 1, "fw": 2, "tm": 3, "fm": 4, "joint": 5, "grid": 6, "eval": 7}
 
 
 def _outcome(ctx, *parts):
@@ -591,9 +628,10 @@ def _outcome(ctx, *parts):
 def _run_draw_leaf(ctx, env, chooser, mk_uniform, case_base, full=True):
     """One execution: draw under the script, check bounds, apply, check, compare with __call__."""
     mod = env.module
+    kk = case_base.get("k", 0) if isinstance(case_base.get("k", 0), int) else 0  # knot pass: leaf index
     with ScriptedRandom(chooser, uniform=mk_uniform()) as sr:
         try:
-            if sum(chooser.prefix) % 2:  # == sum(choices): unexplored points default to answer 0
+            if (sum(chooser.prefix) + kk) % 2:  # == sum(choices): unexplored points default to answer 0
                 params = mod.draw_parameters(env.feats, env.lengths)
             else:
                 params = PF.spec_augment_draw_parameters(env.feats, *env.functional_args(), env.lengths)
@@ -623,11 +661,11 @@ def _run_draw_leaf(ctx, env, chooser, mk_uniform, case_base, full=True):
         # the public entry points under the same answers must give the same tensor
         ch2 = Chooser(prefix=chooser.choices)
         # float32 layouts only: the draw itself uses the dtype's epsilon, so a float64 call is another draw
-        lay = ("contiguous", "transposed", "offset")[(sum(chooser.choices) // 3) % 3]
+        lay = ("contiguous", "transposed", "offset")[(sum(chooser.choices) // 3 + kk) % 3]
         x_in = env.feats if lay == "contiguous" else env.variants()[lay][0]
         with ScriptedRandom(ch2, uniform=mk_uniform()):
             try:
-                if (sum(chooser.choices) + len(chooser.choices) // 2) % 2:
+                if (sum(chooser.choices) + len(chooser.choices) // 2 + kk // 3) % 2:
                     out2 = mod(x_in, env.lengths)
                     api = "SpecAugment.__call__"
                 else:
@@ -843,6 +881,59 @@ def _run_eval_unit(ctx, env, ui, only=None):
                     ctx.count("eval_returns_same_object" if out is feats else "eval_returns_equal_copy")
 
 
+# ----------------------------------------------------------------------------- destination near a pinned knot
+KNOT_DIST = (0.0, 1e-3, 1e-2, 0.1, 0.3)
+KNOT_CENTRE = (0.0, 0.5, ONE_M)
+SWEEP_PAIRS = ((0.0, 0.0), (0.5, 0.5), (ONE_M, ONE_M))
+F32_EPS = 2.0 ** -23
+
+
+def _knot_answers(env, k):
+    """Uniform answers (centre draw, shift draw) per batch element for leaf k.  `dist` units: the centre
+    answer is KNOT_CENTRE[.] and the shift answer is solved so that the destination w_0 + w lands
+    KNOT_DIST[.] frames from the lower / upper pinned knot (0.5 = neutral when that destination is outside
+    the element's window).  `sweep` units: fixed answer pairs."""
+    unit = env.unit
+    if unit["mode"] == "sweep":
+        a, b = SWEEP_PAIRS[k]
+        return [a] * env.N, [b] * env.N, [None] * env.N
+    ci, rest = divmod(k, 2 * len(KNOT_DIST))
+    end, di = divmod(rest, len(KNOT_DIST))
+    u1 = KNOT_CENTRE[ci]
+    d = KNOT_DIST[di]
+    mtw = env.cfg["max_time_warp"]
+    us1, us2, reached = [], [], []
+    for L in env.lens_eff:
+        W = min(max(L / 2.0 - F32_EPS, 0.0), float(mtw))
+        w0 = u1 * (L - 2 * W) + W
+        target = d if end == 0 else (L - 1.0) - d
+        u2 = (target - w0 + W) / (2 * W) if W > 0 else -1.0
+        ok = 0.0 <= u2 <= ONE_M and 0.0 <= target <= L - 1.0
+        us1.append(u1)
+        us2.append(u2 if ok else 0.5)
+        reached.append((end, d) if ok else None)
+    return us1, us2, reached
+
+
+def _run_knot_unit(ctx, env, ui, only=None):
+    unit = env.unit
+    base = {"unit": unit, "tier": env.tier, "seed": env.seed, "ui": ui}
+    nleaf = len(SWEEP_PAIRS) if unit["mode"] == "sweep" else len(KNOT_CENTRE) * 2 * len(KNOT_DIST)
+    for k in (range(nleaf) if only is None else [only]):
+        us1, us2, reached = _knot_answers(env, k)
+        a1 = torch.tensor(us1, dtype=torch.float64).float()
+        a2 = torch.tensor(us2, dtype=torch.float64).float()
+        params, _ = _run_draw_leaf(ctx, env, Chooser(), lambda: _fixed([a1, a2]), dict(base, k=k), True)
+        for r in reached:
+            if r is not None:
+                ctx.count("knot_%s_%g" % ("lower" if r[0] == 0 else "upper", r[1]))
+            elif unit["mode"] == "dist":
+                ctx.count("knot_target_outside_window")
+        if params is not None and k == 7 and unit["mode"] == "dist":
+            ctx.sample({"pass": "knot", "T": env.T, "lengths": unit["lens"], "limits": {k_: v for k_, v in
+                        env.cfg.items() if v}, "answers": [us1, us2], "params": _plist(params)[:2]})
+
+
 # ----------------------------------------------------------------------------- histories on one module
 HIST_CFGS = (
     dict(max_time_warp=3, max_freq_warp=0, max_time_mask=2, max_time_mask_proportion=1, num_time_mask=2,
@@ -978,7 +1069,7 @@ def _run_hist_unit(ctx, env, ui, only=None):
                             "last_call_output": out.tolist()})
 
 
-RUNNERS = {"hist": _run_hist_unit, "tw": _run_group_unit, "fw": _run_group_unit, "tm": _run_group_unit, "fm": _run_group_unit,
+RUNNERS = {"knot": _run_knot_unit, "hist": _run_hist_unit, "tw": _run_group_unit, "fw": _run_group_unit, "tm": _run_group_unit, "fm": _run_group_unit,
            "joint": _run_joint_unit, "grid": _run_grid_unit, "eval": _run_eval_unit}
 
 
@@ -997,7 +1088,7 @@ def replay(case):
     ctx = Ctx()
     unit = case["unit"]
     env = Env(unit, case["tier"], case["seed"])
-    only = case["choices"] if "choices" in case else case["k"]
+    only = case["k"] if unit["pass"] == "knot" or "choices" not in case else case["choices"]
     RUNNERS[unit["pass"]](ctx, env, case.get("ui", -1), only=only)
     return ctx
 
@@ -1006,7 +1097,8 @@ def finalize(total, tier, seed):
     c = total.counters
     for name in ("cells_zeroed", "warps_dst_interior", "group_alone_equals_joint", "call_equals_draw_then_apply",
                  "layout_transposed_equal", "layout_offset_equal", "layout_float64_equal",
-                 "history_equals_fresh_module"):
+                 "history_equals_fresh_module", "knot_lower_0.001", "knot_upper_0.001", "knot_lower_0.3",
+                 "knot_upper_0.3"):
         if not c.get(name):
             total.notes.append(f"vacuity warning: counter {name} is zero")
     total.notes.append(
